@@ -4,6 +4,10 @@ from pyvc.runner import unit, run_function
 from pyvc.values import *
 from pyvc.engine import State
 from spec import trim as ST
+from spec import padding as SP
+from pyvc.engine import LoopSpec
+from pyvc.tstr import TS, Rep, Text, Cond
+from .render_kitty import class_literals
 from .common import *
 
 URW = "widget/_urwid.py"
@@ -37,8 +41,8 @@ def u_rows_render(ctx):
     _valid_size is an uninterpreted deterministic function of its arguments (its own contract is C04)."""
     obs = []
     I = z3.IntSort()
-    VW = z3.Function("valid_w", I, I, I)
-    VH = z3.Function("valid_h", I, I, I)
+    VW = z3.Function("valid_w", I, I, I, I)
+    VH = z3.Function("valid_h", I, I, I, I)
     ns = ctx.ns("term_image.image.common")
     SizeNS = ns.d["Size"]
     for sizing in ("FIT", "AUTO"):
@@ -60,7 +64,8 @@ def u_rows_render(ctx):
         def valid_size(e, s, recv, a, k):
             a = list(a) + [None] * (2 - len(a))
             w, h = code(a[0]), code(a[1])
-            r = (VW(w, h), VH(w, h))
+            ep = s.ghost.get("epoch", 1)          # terminal conditions (size, cell ratio) may differ between calls made at different times
+            r = (VW(ep, w, h), VH(ep, w, h))
             s.pc += [r[0] >= 1, r[1] >= 1]
             return [(r, s)]
         eng.methods[("BlockImage", "_valid_size")] = valid_size
@@ -77,11 +82,10 @@ def u_rows_render(ctx):
         image = st.new("BlockImage", {"_size": (z3.Int("old_w"), z3.Int("old_h"))})
         self_ = st.new("UrwidImage", {"_ti_image": image, "_ti_sizing": SizeNS.d[sizing], "_ti_alpha": None, "_ti_style_args": st.new("dict", {"@items": {}}),
                                       "_ti_h_align": "<", "_ti_v_align": "^"})
-        # rows()
-        s0 = st.fork()
-        s0.env.update(self=self_, size=(cols,), focus=False)
-        rows_out = run_function(eng, ctx.fn(URW, "UrwidImage.rows"), s0)
-        # render(): up to the construction of the canvas
+        # class-level defaults of the widget (attributes the model does not know are looked up there, as python does)
+        for k_, v_ in class_literals(ctx, URW, "UrwidImage").items():
+            if k_ not in st.H(self_) and (v_ is None or isinstance(v_, (int, str, bool, tuple))):
+                st.H(self_)[k_] = v_
         canv = {}
 
         def new_canvas(e, s, c, a, k):
@@ -94,18 +98,435 @@ def u_rows_render(ctx):
         eng.methods[("BlockImage", "_format_render")] = lambda e, s, recv, a, k: [(Rec("formatted", {"size": (a[2], a[4])}), s)]
         eng.attrs[("BlockImage", "_render_image")] = lambda e, s, v: [(Opaque("method"), s)]
         eng.genv["type"] = Fn(lambda e, s, a, k: [(st.new("wcls", {"_ti_error_placeholder": None}), s)])
-        s1 = st.fork()
-        s1.env.update(self=self_, size=(cols,), focus=False)
-        render_out = run_function(eng, ctx.fn(URW, "UrwidImage.render"), s1)
-        for k1, v1, sa in rows_out:
-            for k2, v2, sb in render_out:
-                s = sb.fork()
-                s.pc += sa.pc
-                if k1 != "return" or k2 != "return":
-                    eng.oblige("no-exception", s, False, kind="raise")
+
+        def call(which, s, width):
+            s = s.fork()
+            s.frames = [dict(self=self_, size=(width,), focus=False)]
+            return run_function(eng, ctx.fn(URW, "UrwidImage." + which), s)
+        # history: anything the widget did earlier under other terminal conditions (epoch 0), then rows() and render() now (epoch 1)
+        cols0 = z3.Int("earlier_cols")
+        st.pc.append(cols0 >= 1)
+        preludes = [("fresh", st)]
+        for which in ("rows", "render"):
+            s0 = st.fork()
+            s0.ghost["epoch"] = 0
+            for k0, v0, sp in call(which, s0, cols0):
+                if k0 == "return":
+                    preludes.append((which, sp))
+        for pname, sp in preludes:
+            sp = sp.fork()
+            sp.ghost["epoch"] = 1
+            for k1, v1, sa in call("rows", sp, cols):
+                if k1 != "return":
+                    eng.oblige(f"after[{pname}]/rows:no-exception", sa, False, kind="raise")
                     continue
-                csize = sb.H(v2)["size"]
-                eng.oblige("announced-rows=rows-of-the-rendered-canvas", s, And(Eq(v1, csize[1]), Eq(csize[0], cols)), kind="post")
-                eng.oblige("canvas-size=formatted-render-size=(cols,image-height)", s, And(Eq(csize, sb.H(v2)["render"].f["size"]), Eq(csize[1], sb.H(v2)["image_size"][1])), kind="post")
+                for k2, v2, sb in call("render", sa, cols):
+                    if k2 != "return":
+                        eng.oblige(f"after[{pname}]/render:no-exception", sb, False, kind="raise")
+                        continue
+                    csize = sb.H(v2)["size"]
+                    eng.oblige(f"after[{pname}]/announced-rows=rows-of-the-rendered-canvas", sb, And(Eq(v1, csize[1]), Eq(csize[0], cols)), kind="post")
+                    eng.oblige(f"after[{pname}]/canvas-size=formatted-render-size=(cols,image-height)", sb,
+                               And(Eq(csize, sb.H(v2)["render"].f["size"]), Eq(csize[1], sb.H(v2)["image_size"][1])), kind="post")
         obs += eng.obligations
     return obs
+
+
+# ------------------------------------------------------------------------------------------------ UrwidImageCanvas.content()
+# Specification theory of a formatted text render as the canvas stores it (assumed structure, established by C01/C02/C05):
+#   canvas row R (0 <= R < H) is an image row iff PT <= R < PT + ih, where (PL, PT) is the padding BaseImage._format_render
+#   puts before the image for the widget's alignments (C05);
+#   an image row is   b" " * PL + cell_0 \0 cell_1 \0 ... cell_{iw-1} SGR_DEFAULT + b" " * PR + b"\0\0"   and every other row is
+#   b" " * W + b"\0\0";   a cell is an optional colour prefix (one or two SGR sequences, starts with ESC, ends with its last "m")
+#   followed by one glyph that contains neither ESC nor "m" nor NUL; cell 0 of every row has a prefix;
+#   a prefix determines on its own the appearance of the cells of its run (a background-only prefix precedes blanks only:
+#   BlockImage._render_image.update_buffer writes the foreground unless the two pixels are equal).
+# The appearance of image cell (i, j) is therefore a function of (i, j) and of LP(i, j) = the last prefixed cell at or before j.
+_I = z3.IntSort()
+HP = z3.Function("cell_has_prefix", _I, _I, z3.BoolSort())
+LP = z3.Function("last_prefixed_cell", _I, _I, _I)
+PLEN = z3.Function("prefix_bytes", _I, _I, _I)            # length of the whole colour prefix of a cell
+FSGR = z3.Function("first_sgr_bytes", _I, _I, _I)         # length of the first SGR sequence of the prefix (<= PLEN)
+
+
+class LPFacts:
+    """hand-instantiated axioms of LP:  0 <= LP(i,j) <= j,  HP(i, LP(i,j)),  HP(i,0),  forall p. LP(i,j) < p <= j -> not HP(i,p)"""
+
+    def __init__(self):
+        self.js, self.ps = [], []
+
+    def at(self, i, j):
+        self.js.append((to_z3(i), to_z3(j)))
+        return LP(to_z3(i), to_z3(j))
+
+    def point(self, i, p):
+        self.ps.append((to_z3(i), to_z3(p)))
+
+    def facts(self):
+        out = []
+        ps = list(self.ps) + [(i, LP(i, j)) for i, j in self.js]
+        for i, j in self.js:
+            out += [z3.Implies(j >= 0, z3.And(LP(i, j) >= 0, LP(i, j) <= j, HP(i, LP(i, j)))), HP(i, 0),
+                    z3.And(PLEN(i, j) >= 3, FSGR(i, j) >= 3, FSGR(i, j) <= PLEN(i, j))]
+            for i2, p in ps:
+                out.append(z3.Implies(z3.And(i == i2, LP(i, j) < p, p <= j), z3.Not(HP(i2, p))))
+        return out
+
+
+def _norm(lo, hi, n):
+    """python slice bounds -> (lo, hi) clamped into [0, n]"""
+    def one(x, dflt):
+        if x is None:
+            return dflt
+        x = to_z3(x)
+        return z3.If(x < 0, Max(n + x, 0), Min(x, n))
+    lo, hi = one(lo, z3.IntVal(0)), one(hi, to_z3(n))
+    return lo, hi
+
+
+BLANK = (0, 0, 0, 0)
+
+
+def rep_flat(p):
+    """Rep(Rep(.. unit .., n1), n2) -> (unit text, product of the counts clamped at 0)"""
+    n = Max(to_z3(as_arith(p.n)), 0)
+    items = p.ts.items
+    if len(items) == 1 and isinstance(items[0], Rep):
+        u, m = rep_flat(items[0])
+        return u, m * n
+    if len(items) == 1 and isinstance(items[0], str):
+        return items[0], n
+    raise Unsupported(f"repetition of {p.ts!r}")
+
+
+def content_unit(kind, h_align, v_align, cols_given, rows_given):
+    name = f"_urwid:UrwidImageCanvas.content[{kind},{h_align}{v_align},cols={'n' if cols_given else 'None'},rows={'n' if rows_given else 'None'}]"
+
+    @unit("C17", name)
+    def u(ctx):
+        import ast as _ast
+        eng = ctx.engine("C17/" + name.split(":", 1)[1], "C17")
+        eng.default_replay = "C17.content"
+        eng.theory |= {"CLine", "Cells", "CellList", "Cell", "Piece"}
+        eng.classes.update({"BlockImage": ("TextImage",), "TextImage": ("BaseImage",), "KittyImage": ("GraphicsImage",),
+                            "ITerm2Image": ("GraphicsImage",), "GraphicsImage": ("BaseImage",)})
+        for c in ("TextImage", "KittyImage", "ITerm2Image", "BlockImage", "GraphicsImage"):
+            eng.genv[c] = ClassV(c)
+        cs = ctx.ns("term_image._ctlseqs")
+        for k in ("ESC_b", "SGR_DEFAULT_b"):
+            eng.genv[k] = cs.d[k]
+        ESC_b, RESET_b = cs.d["ESC_b"], cs.d["SGR_DEFAULT_b"]
+        st = State()
+        W, H, iw, ih, tl, tt = z3.Ints("W H iw ih trim_left trim_top")
+        cols = z3.Int("cols") if cols_given else None
+        rows = z3.Int("rows") if rows_given else None
+        vc = cols if cols_given else W
+        vr = rows if rows_given else H
+        st.pc += [iw >= 1, ih >= 1, iw <= W, ih <= H, tl >= 0, tt >= 0, vc >= 1, vr >= 1, tl + vc <= W, tt + vr <= H]
+        if not cols_given:
+            st.pc.append(tl == 0)       # cols=None means "to the right edge" only for an untrimmed left side (urwid passes both or none)
+        if not rows_given:
+            st.pc.append(tt == 0)
+        ha = {"<": SP.LEFT, ">": SP.RIGHT}.get(h_align, SP.CENTER)
+        va = {"^": SP.LEFT, "_": SP.RIGHT}.get(v_align, SP.CENTER)
+        PL, PT, PR, PB = SP.spec_exact_dims(W, H, ha, va, iw, ih)
+
+        # ---- the theory values
+        def cline(row):
+            return Rec("CLine", {"row": row})
+
+        def is_img_row(R):
+            return z3.And(R >= PT, R < PT + ih)
+
+        def full(R, c, lp):
+            """what the untrimmed canvas shows at (row R, column c)"""
+            i, j = R - PT, c - PL
+            img = z3.And(is_img_row(R), c >= PL, c < PL + iw)
+            return tuple(z3.If(img, a, b) for a, b in zip((z3.IntVal(1), i, j, lp.at(i, j)), map(z3.IntVal, BLANK)))
+
+        def m_cline_slice(e, s, v, a, k):
+            lo, hi, step = a
+            if step is not None or lo is None or hi is None:
+                raise Unsupported("slice form of a canvas line")
+            R = to_z3(v.f["row"])
+            e.oblige("image-cells-taken-from-an-image-row,strip-exactly-its-padding-and-the-NUL-pair", s,
+                     z3.And(is_img_row(R), to_z3(lo) == PL, to_z3(hi) == -(PR + 2)), kind="safety")
+            return [(Rec("Cells", {"row": R - PT}), s)]
+        eng.methods[("CLine", "__getslice__")] = m_cline_slice
+
+        def m_cline_replace(e, s, v, a, k):
+            if tuple(a) != (b"\0", b""):
+                raise Unsupported("replace on a canvas line")
+            return [(Rec("Piece", {"what": "fullrow", "row": to_z3(v.f["row"]), "extra": None}), s)]
+        eng.methods[("CLine", "replace")] = m_cline_replace
+
+        def m_cline_add(e, s, v, a, k):
+            return [(Rec("Piece", {"what": "rawrow", "row": to_z3(v.f["row"]), "extra": a[0]}), s)]
+        eng.methods[("CLine", "__add__")] = m_cline_add
+
+        def m_cells_replace(e, s, v, a, k):
+            if tuple(a) != (b"\0", b""):
+                raise Unsupported("replace on image cells")
+            return [(Rec("Piece", {"what": "run", "row": v.f["row"], "lo": z3.IntVal(0), "hi": iw}), s)]
+        eng.methods[("Cells", "replace")] = m_cells_replace
+
+        def m_cells_split(e, s, v, a, k):
+            if tuple(a) != (b"\0",):
+                raise Unsupported("split on image cells")
+            return [(Rec("CellList", {"row": v.f["row"], "lo": z3.IntVal(0), "hi": iw, "rev": False}), s)]
+        eng.methods[("Cells", "split")] = m_cells_split
+
+        def m_list_slice(e, s, v, a, k):
+            lo, hi, step = a
+            n = v.f["hi"] - v.f["lo"]
+            if v.f["rev"]:
+                raise Unsupported("slice of a reversed cell list")
+            if step is None:
+                l2, h2 = _norm(lo, hi, n)
+                return [(Rec("CellList", {"row": v.f["row"], "lo": v.f["lo"] + l2, "hi": v.f["lo"] + Max(h2, l2), "rev": False}), s)]
+            if not (not is_sym(step) and step == -1 and hi is None and lo is not None):
+                raise Unsupported("slice step of a cell list")
+            # line[a::-1]: cells a, a-1, .. 0   (a negative start counts from the end; clamped like python does)
+            a0 = to_z3(lo)
+            start = z3.If(a0 < 0, n + a0, Min(a0, n - 1))          # < 0 -> empty
+            ln = Max(start + 1, 0)
+            i = v.f["row"]
+            s = e.fork(s)
+            lp0 = LPFacts()
+            lp0.at(i, v.f["lo"] + start)
+            s.pc += lp0.facts()
+            base = v.f["lo"]
+            s.ghost["search"] = (to_z3(i), base + start)
+            return [(SeqV(ln, lambda kk, st_, i=i, base=base, start=start: Rec("Cell", {"row": i, "j": base + start - kk}), "list"), s)]
+        eng.methods[("CellList", "__getslice__")] = m_list_slice
+
+        def m_list_item(e, s, v, a, k):
+            j = to_z3(a[0])
+            n = v.f["hi"] - v.f["lo"]
+            e.oblige("cell-index-in-bounds", s, z3.And(j >= -n, j < n), kind="safety")
+            return [(Rec("Cell", {"row": v.f["row"], "j": v.f["lo"] + z3.If(j < 0, n + j, j)}), s)]
+        eng.methods[("CellList", "__getitem__")] = m_list_item
+
+        def m_list_joined(e, s, v, a, k):
+            if a[0] != b"":
+                raise Unsupported("join separator")
+            return [(Rec("Piece", {"what": "run", "row": v.f["row"], "lo": v.f["lo"], "hi": v.f["hi"]}), s)]
+        eng.methods[("CellList", "__joined__")] = m_list_joined
+
+        def m_cell_startswith(e, s, v, a, k):
+            if a[0] != ESC_b:
+                raise Unsupported("startswith argument")
+            return [(HP(to_z3(v.f["row"]), to_z3(v.f["j"])), s)]
+        eng.methods[("Cell", "startswith")] = m_cell_startswith
+
+        def m_cell_find(which):
+            def f(e, s, v, a, k):
+                if a[0] != b"m":
+                    raise Unsupported("search argument")
+                i, j = to_z3(v.f["row"]), to_z3(v.f["j"])
+                # a prefixed cell: the glyph holds no "m", so the last "m" ends the prefix and the first one ends its first SGR sequence.
+                # (the last cell of a row also carries the trailing reset; it is never searched: see the obligation)
+                e.oblige("searched-cell-has-a-prefix-and-is-not-the-row's-last", s, z3.And(HP(i, j), j < iw - 1, j >= 0), kind="safety")
+                s = e.fork(s)
+                s.pc += [PLEN(i, j) >= 3, FSGR(i, j) >= 3, FSGR(i, j) <= PLEN(i, j)]
+                return [((PLEN if which == "rindex" else FSGR)(i, j) - 1, s)]
+            return f
+        for w_ in ("rindex", "index", "rfind", "find"):
+            eng.methods[("Cell", w_)] = m_cell_find("rindex" if w_.startswith("r") else "index")
+
+        def m_cell_slice(e, s, v, a, k):
+            lo, hi, step = a
+            if lo is not None or step is not None or hi is None:
+                raise Unsupported("slice form of a cell")
+            return [(Rec("Piece", {"what": "prefix", "row": to_z3(v.f["row"]), "j": to_z3(v.f["j"]), "len": to_z3(hi)}), s)]
+        eng.methods[("Cell", "__getslice__")] = m_cell_slice
+
+        # ---- objects
+        image = st.new({"text": "BlockImage", "kitty": "KittyImage", "iterm2": "ITerm2Image"}[kind], {})
+        dw, dc = z3.Ints("widget_disguise canvas_disguise")
+        st.pc += [dw >= 0, dw <= 2, dc >= 0, dc <= 2]
+        widget = st.new("UrwidImage", {"_ti_image": image, "_ti_h_align": h_align, "_ti_v_align": v_align, "_ti_disguise_state": dw})
+        lines = SeqV(H, lambda kk, st_: cline(to_z3(kk)), "list")
+        self_ = st.new("UrwidImageCanvas", {"size": (W, H), "_ti_image_size": (iw, ih), "_ti_lines": lines,
+                                            "widget_info": (widget, None, None), "_ti_disguise_state": dc})
+        eng.methods[("UrwidImageCanvas", "_ti_calc_trim")] = lambda e, s, recv, a, k: [(ST.spec_calc_trim(*a), s)]    # its own unit proves this contract
+        konsole = z3.Bool("on_konsole")
+        eng.genv["get_terminal_name_version"] = Fn(lambda e, s, a, k: [((z3.If(konsole, z3.StringVal("konsole"), z3.StringVal("other")), None), s)])
+        st.ghost["ny"] = z3.IntVal(0)
+
+        # ---- what a yielded row shows
+        def on_yield(e, node, v, s):
+            s = e.fork(s)
+            ny = s.ghost["ny"]
+            R = tt + ny
+            s.ghost["ny"] = ny + 1
+            if not (isinstance(v, Ref) and isinstance(s.H(v), list)):
+                e.oblige("row-is-a-list-of-(attr,charset,bytes)", s, False, kind="yield")
+                return [(None, s)]
+            col = z3.IntVal(0)
+            cur_row, cur_p = z3.IntVal(-1), z3.IntVal(-1)          # colour in force: the prefix of cell (cur_row, cur_p); -1 = default
+            kcol = e.sym_int("column")
+            lp = LPFacts()
+            if "search" in s.ghost:
+                lp.at(*s.ghost["search"])
+            shown = tuple(z3.IntVal(-9) for _ in range(4))
+            side = []
+
+            def span(start, ln, val):
+                nonlocal shown
+                inside = z3.And(kcol >= start, kcol < start + ln)
+                shown = tuple(z3.If(inside, a, b) for a, b in zip(val, shown))
+            for item in s.H(v):
+                if not (isinstance(item, tuple) and len(item) == 3 and item[0] is None and item[1] == "U"):
+                    e.oblige("row-is-a-list-of-(attr,charset,bytes)", s, False, kind="yield")
+                    return [(None, s)]
+                x = item[2]
+                pieces = []
+                if isinstance(x, bytes):
+                    pieces = [x]
+                elif isinstance(x, TS):
+                    pieces = list(x.items)
+                elif isinstance(x, Rec) and x.name == "Piece":
+                    pieces = [x]
+                else:
+                    raise Unsupported(f"row segment {x!r}")
+                for p in pieces:
+                    if isinstance(p, (bytes, str)):
+                        b = p if isinstance(p, bytes) else p.encode("latin1")
+                        while b:
+                            if b[:1] == b"\0":
+                                b = b[1:]
+                            elif b[:1] == b" ":
+                                span(col, 1, (z3.If(cur_p == -1, 0, 2), z3.IntVal(0), z3.IntVal(0), z3.IntVal(0)))
+                                col = col + 1
+                                b = b[1:]
+                            elif b.startswith(RESET_b):
+                                cur_row, cur_p = z3.IntVal(-1), z3.IntVal(-1)
+                                b = b[len(RESET_b):]
+                            else:
+                                raise Unsupported(f"literal bytes {b!r} in a canvas row")
+                    elif isinstance(p, Text):
+                        if p.ch != " ":
+                            raise Unsupported(f"repeated {p.ch!r} in a canvas row")
+                        n = Max(to_z3(as_arith(p.n)), 0)
+                        span(col, n, (z3.If(cur_p == -1, 0, 2), z3.IntVal(0), z3.IntVal(0), z3.IntVal(0)))
+                        col = col + n
+                    elif isinstance(p, Rep):
+                        unit_, n = rep_flat(p)
+                        if unit_ == " ":
+                            span(col, n, (z3.If(cur_p == -1, 0, 2), z3.IntVal(0), z3.IntVal(0), z3.IntVal(0)))
+                            col = col + n
+                        elif unit_ == "\b ":
+                            # the redraw-forcing disguise (C18): backspace + space rewrites the previous cell as a blank and leaves the
+                            # cursor where it was; it may only follow a graphics line, whose text cells are blanks under the image
+                            side.append(("disguise", n))
+                        else:
+                            raise Unsupported(f"repeated {p.unit!r} in a canvas row")
+                    elif isinstance(p, Rec) and p.f["what"] == "prefix":
+                        i, j = p.f["row"], p.f["j"]
+                        e.oblige("recovered-colour-is-the-whole-colour-prefix-of-a-prefixed-cell", s, z3.And(HP(i, j), p.f["len"] == PLEN(i, j)), kind="yield")
+                        cur_row, cur_p = i, j
+                        lp.point(i, j)
+                    elif isinstance(p, Rec) and p.f["what"] == "run":
+                        i, lo, hi = to_z3(p.f["row"]), to_z3(p.f["lo"]), to_z3(p.f["hi"])
+                        n = Max(hi - lo, 0)
+                        j = lo + (kcol - col)
+                        lp.point(i, lo)
+                        src = z3.If(lp.at(i, j) >= lo, LP(i, j), z3.If(cur_row == i, cur_p, -1))
+                        span(col, n, (z3.IntVal(1), i, j, src))
+                        last = z3.If(lp.at(i, hi - 1) >= lo, LP(i, hi - 1), z3.If(cur_row == i, cur_p, -1))
+                        ends_reset = hi == iw       # the trailing SGR_DEFAULT travels with the last cell of the row
+                        cur_row, cur_p = z3.If(n > 0, z3.If(ends_reset, -1, i), cur_row), z3.If(n > 0, z3.If(ends_reset, -1, last), cur_p)
+                        col = col + n
+                    elif isinstance(p, Rec) and p.f["what"] in ("fullrow", "rawrow"):
+                        Rr = p.f["row"]
+                        e.oblige("whole-line-output-only-at-column-0-in-default-colour", s, z3.And(col == 0, cur_p == -1), kind="yield")
+                        span(col, W, full(Rr, kcol, lp))
+                        col = col + W
+                        if p.f["what"] == "rawrow":
+                            ex = p.f["extra"]
+                            qs = list(ex.items if isinstance(ex, TS) else [ex])
+                            while qs:
+                                q = qs.pop(0)
+                                if isinstance(q, Cond):
+                                    qs = list(q.ts.items) + qs        # present or absent: a disguise of either length is invisible
+                                elif isinstance(q, Rep) and rep_flat(q)[0] == "\b ":
+                                    side.append(("disguise", rep_flat(q)[1]))
+                                elif q in (b"", ""):
+                                    pass
+                                else:
+                                    raise Unsupported(f"suffix {q!r} of a canvas line")
+                    else:
+                        raise Unsupported(f"piece {p!r}")
+            s.pc += [kcol >= 0, kcol < vc]
+            e.oblige("row-occupies-exactly-the-requested-columns", s, col == vc, kind="yield")
+            if True:
+                want = full(R, tl + kcol, lp)
+                s.pc += lp.facts()
+                if kind == "text":
+                    e.oblige("every-cell-shows-what-the-untrimmed-canvas-shows-there(glyph,colour-source)", s, And(*[a == b for a, b in zip(shown, want)]), kind="yield")
+                    e.oblige("no-colour-in-force-past-the-right-edge", s, cur_p == -1, kind="yield")
+                    e.oblige("no-disguise-on-text-lines", s, z3.BoolVal(not side), kind="yield")
+                else:
+                    horizontal = z3.Or(tl != 0, tl + vc != W)
+                    blank = And(*[a == b for a, b in zip(shown, map(z3.IntVal, BLANK))])
+                    e.oblige("graphics:whole-corresponding-line-or-blanks-when-trimmed-horizontally", s,
+                             z3.If(horizontal, blank, And(*[a == b for a, b in zip(shown, full(R, kcol, lp))])), kind="yield")
+            return [(None, s)]
+        eng.on_yield = on_yield
+
+        # ---- loops: every loop yields one row per iteration, except the backward search for the colour in force
+        fn = ctx.fn(URW, "UrwidImageCanvas.content")
+        eng.number_loops(fn)
+        loops = sorted([x for x in _ast.walk(fn) if isinstance(x, (_ast.For, _ast.While))], key=lambda x: (x.lineno, x.col_offset))
+
+        def assigned(loop):
+            names = set()
+            for n in _ast.walk(loop):
+                if isinstance(n, _ast.Name) and isinstance(n.ctx, _ast.Store):
+                    names.add(n.id)
+            return names
+        for lid, loop in enumerate(loops, 1):
+            has_break = not any(isinstance(n, (_ast.Yield, _ast.YieldFrom)) for n in _ast.walk(loop))     # a loop that yields nothing: the search
+            nested = any(o is not loop and any(n is loop for n in _ast.walk(o)) for o in loops)
+            names = assigned(loop)
+            spec = LoopSpec(None, None, on_break=lambda s: s)
+            if has_break and nested:
+                # the backward search for the colour in force: cells S, S-1, .. 0 of one row (recorded when the reversed slice is taken);
+                # none of the cells already passed has a prefix, nothing was yielded, nothing found yet
+                def inv(s, k, N, sp=spec):
+                    i, S = sp.entry.ghost["search"]
+                    fc = s.lookup("first_color")
+                    return z3.And(s.ghost["ny"] == sp.entry.ghost["ny"], LP(i, S) <= S - k, z3.BoolVal(isinstance(fc, tuple) and fc == ()))
+
+                def havoc(e, s, tag):
+                    s.env["cell"] = Opaque("loop-local")
+            else:
+                def inv(s, k, N, sp=spec):
+                    return s.ghost["ny"] == sp.entry.ghost["ny"] + k
+
+                def havoc(e, s, tag, names=names):
+                    s.ghost["ny"] = z3.Int(f"ny!{tag}")
+                    for nm in names:
+                        s.env[nm] = Opaque("loop-local")
+            spec.inv, spec.havoc = inv, havoc
+            eng.invariants[lid] = spec
+        st.env.update(self=self_, trim_left=tl, trim_top=tt, cols=cols, rows=rows, attr_map=None)
+        outs = run_function(eng, fn, st)
+        for kind_, val, s in outs:
+            if kind_ == "raise":
+                eng.oblige(f"no-exception:{val.cls}", s, False, kind="raise")
+                continue
+            eng.oblige("exactly-the-requested-number-of-rows", s, s.ghost["ny"] == vr, kind="exit")
+        return eng.obligations
+    return u
+
+
+for _k in ("text",):
+    for _h in ("<", "|", ">"):
+        for _v in ("^", "-", "_"):
+            for _c, _r in ((True, True), (False, False), (True, False), (False, True)):
+                content_unit(_k, _h, _v, _c, _r)
+for _k in ("kitty", "iterm2"):
+    for _c, _r in ((True, True), (False, False), (True, False), (False, True)):
+        content_unit(_k, "|", "-", _c, _r)
